@@ -60,8 +60,11 @@ def h_kernel(t, part):
         if state['aborted'] or state['succeeded']:
             connects.append('AFTER-END')
         connects.append((url, headers, auth, transports, namespaces, socketio_path, retry))
-        if t.bool():
+        k = t.choice(3)
+        if k == 1:
             raise exceptions.ConnectionError('refused')
+        if k == 2:
+            raise ValueError('Client is not in a disconnected state')
         state['succeeded'] = True
 
     if asyncio_:
